@@ -6,7 +6,7 @@ from ..surfaces import surface
 from .c01_components import cls, two_surfaces, T
 from .c06 import RG, base_inputs, surfaces_for
 
-RG9 = RG + [(r"Mach", 0.2, 0.8)]
+RG9 = [(r"Mach", 0.05, 0.94)] + RG         # the whole subsonic range of the statement (witnesses on Mach-dependent branches)
 
 
 def wind_matrix(env, alpha, beta):
@@ -60,26 +60,27 @@ def components(env, **cfg):
     si = st.inputs()
     M = np.asarray(si["Mach_number"]).reshape(-1)[0]
     B = xp.sqrt(1 - M * M)
-    so = st.compute(si)
-    stretch = np.array([1, B, B], dtype=object if env.sym else float)
-    for n in st.out_names:
-        src = n.replace("_pg", "_w_frame")
-        if "normals" in n:
-            # normals transform with the inverse transpose of the stretch, up to a common factor: (B nx, ny, nz)
-            env.eq("C09", "ScaleToPG: %s == (B nx, ny, nz) (normal of the stretched geometry up to scale)" % n, so[n],
-                   si[src] * np.array([B, 1, 1], dtype=object if env.sym else float))
-        elif "rotational_velocities" in n:
-            # documented rule for velocities in the stretched domain: (B^2 vx, B vy, B vz) - the rotational velocity field
-            # omega' x (r' - cg') of the stretched geometry r' = (x, B y, B z) turning at omega' = (wx, B wy, B wz)
-            env.eq("C09", "ScaleToPG: %s == (B^2 vx, B vy, B vz) (velocity of the stretched geometry turning at (wx, B wy, B wz))" % n,
-                   so[n], si[src] * np.array([B * B, B, B], dtype=object if env.sym else float))
-        else:
-            env.eq("C09", "ScaleToPG: %s: y and z stretched by B = sqrt(1 - M^2)" % n, so[n], si[src] * stretch)
     gi = sf.inputs(Mach_number=si["Mach_number"])
-    go = sf.compute(gi)
-    for n in sf.out_names:
-        env.eq("C09", "ScaleFromPG: %s == (Fx / B^4, Fy / B^3, Fz / B^3)" % n, go[n] * np.array([B ** 4, B ** 3, B ** 3], dtype=object if env.sym else float),
-               gi[n.replace("_w_frame", "_pg")])
+    stretch = np.array([1, B, B], dtype=object if env.sym else float)
+    # every branch the scaling components may take on the Mach number is explored (the statement is for all 0 <= M < 0.95)
+    for path, (so, go) in env.explore(lambda: (st.compute(si), sf.compute(gi))):
+        tag = (" @path(%s)" % ";".join("%s=%s" % (repr(c)[:50], "T" if bb else "F") for c, bb in path)) if path else ""
+        for n in st.out_names:
+            src = n.replace("_pg", "_w_frame")
+            if "normals" in n:
+                # normals transform with the inverse transpose of the stretch, up to a common factor: (B nx, ny, nz)
+                env.eq("C09", "ScaleToPG: %s == (B nx, ny, nz) (normal of the stretched geometry up to scale)%s" % (n, tag), so[n],
+                       si[src] * np.array([B, 1, 1], dtype=object if env.sym else float))
+            elif "rotational_velocities" in n:
+                # documented rule for velocities in the stretched domain: (B^2 vx, B vy, B vz) - the rotational velocity field
+                # omega' x (r' - cg') of the stretched geometry r' = (x, B y, B z) turning at omega' = (wx, B wy, B wz)
+                env.eq("C09", "ScaleToPG: %s == (B^2 vx, B vy, B vz) (velocity of the stretched geometry turning at (wx, B wy, B wz))%s" % (n, tag),
+                       so[n], si[src] * np.array([B * B, B, B], dtype=object if env.sym else float))
+            else:
+                env.eq("C09", "ScaleToPG: %s: y and z stretched by B = sqrt(1 - M^2)%s" % (n, tag), so[n], si[src] * stretch)
+        for n in sf.out_names:
+            env.eq("C09", "ScaleFromPG: %s == (Fx / B^4, Fy / B^3, Fz / B^3)%s" % (n, tag), go[n] * np.array([B ** 4, B ** 3, B ** 3], dtype=object if env.sym else float),
+                   gi[n.replace("_w_frame", "_pg")])
 
 
 @job("c09.pipeline", ("C09",), cfgs=[dict(nx=2, ny=3, symmetry=True, side="left", nsurf=1), dict(nx=2, ny=2, symmetry=False, nsurf=1),
